@@ -526,6 +526,160 @@ async fn mid_handshake(ctx: &mut Ctx, ty: &str, off: usize, fault: &str, nlive: 
     }
 }
 
+/// `zmqmon child fdcycles <TYPE> <transport> <N>`: a long-lived bound socket serves N
+/// connect / exchange / disconnect cycles of raw peers (orderly close and abort
+/// alternate); open descriptors and alive tasks are counted before and after.
+pub fn child_fd_cycles(args: &[String]) -> i32 {
+    use crate::rig::{self, Raw, WAIT};
+    use std::time::Duration;
+    let ty = args.first().cloned().unwrap_or_else(|| "PULL".into());
+    let transport = args.get(1).cloned().unwrap_or_else(|| "tcp4".into());
+    let n: usize = args.get(2).and_then(|x| x.parse().ok()).unwrap_or(200);
+    let (res, _) = rig::run(2, async move {
+        let mut sock = Sock::new(&ty, None);
+        let ep = sock.bind(&rig::bind_endpoint(&transport)).await?;
+        let peer_ty = peer_type_for(&ty);
+        // warm-up cycles so lazily created descriptors (epoll, eventfd, ...) are in the baseline
+        let mut fd_before = 0usize;
+        let mut tasks_before = 0usize;
+        for cycle in 0..n + 5 {
+            if cycle == 5 {
+                tokio::time::sleep(Duration::from_millis(100)).await;
+                fd_before = rig::open_fds();
+                tasks_before = rig::alive_tasks();
+            }
+            let mut raw = tokio::time::timeout(WAIT, Raw::connect(&ep)).await.map_err(|_| "connect timed out".to_string())?.map_err(|e| e.to_string())?;
+            raw.handshake(peer_ty, Some(format!("cyc{cycle}").as_bytes())).await?;
+            // a little traffic in the direction the type supports
+            match ty.as_str() {
+                "PULL" | "SUB" | "DEALER" | "ROUTER" | "XPUB" => {
+                    let m = if ty == "XPUB" { vec![vec![1u8, b'c']] } else { vec![b"cycle".to_vec()] };
+                    let _ = raw.send_msg(&m).await;
+                    let _ = tokio::time::timeout(WAIT, sock.recv()).await;
+                }
+                "REP" => {
+                    let _ = raw.send_msg(&[vec![], b"cycle".to_vec()]).await;
+                    if let Ok(Ok(_)) = tokio::time::timeout(WAIT, sock.recv()).await {
+                        let _ = tokio::time::timeout(WAIT, sock.send(&[b"r".to_vec()])).await;
+                        let _ = raw.read_msg(WAIT).await;
+                    }
+                }
+                "PUB" => {
+                    let _ = raw.send_msg(&[vec![1u8]]).await;
+                    tokio::time::sleep(Duration::from_millis(2)).await;
+                    let _ = tokio::time::timeout(WAIT, sock.send(&[b"p".to_vec()])).await;
+                }
+                "PUSH" => {
+                    tokio::time::sleep(Duration::from_millis(2)).await;
+                    let _ = tokio::time::timeout(WAIT, sock.send(&[b"p".to_vec()])).await;
+                }
+                "REQ" => {
+                    tokio::time::sleep(Duration::from_millis(2)).await;
+                    if let Ok(Ok(())) = tokio::time::timeout(WAIT, sock.send(&[b"q".to_vec()])).await {
+                        let _ = raw.read_msg(WAIT).await;
+                        let _ = raw.send_msg(&[vec![], b"a".to_vec()]).await;
+                        let _ = tokio::time::timeout(WAIT, sock.recv()).await;
+                    }
+                }
+                _ => {}
+            }
+            // the peer leaves: orderly close or abort (RST)
+            if cycle % 2 == 1 {
+                if let Raw::Tcp(s) = &raw {
+                    #[allow(deprecated)]
+                    let _ = s.set_linger(Some(Duration::from_secs(0)));
+                }
+            }
+            drop(raw);
+            // the socket gets a chance to notice, the way its type does
+            match ty.as_str() {
+                "PULL" | "SUB" | "DEALER" | "ROUTER" | "XPUB" | "REP" => {
+                    let _ = tokio::time::timeout(Duration::from_millis(15), sock.recv()).await;
+                }
+                "PUSH" | "REQ" => {
+                    for _ in 0..2 {
+                        let _ = tokio::time::timeout(Duration::from_millis(15), sock.send(&[b"x".to_vec()])).await;
+                    }
+                    if ty == "REQ" {
+                        let _ = tokio::time::timeout(Duration::from_millis(15), sock.recv()).await;
+                    }
+                }
+                _ => tokio::time::sleep(Duration::from_millis(3)).await,
+            }
+        }
+        // bounded wait for stragglers
+        let mut fd_after = rig::open_fds();
+        let mut tasks_after = rig::alive_tasks();
+        let deadline = std::time::Instant::now() + WAIT;
+        while (fd_after > fd_before + 6 || tasks_after > tasks_before + 2) && std::time::Instant::now() < deadline {
+            if sock.can_recv() && ty != "REQ" {
+                let _ = tokio::time::timeout(Duration::from_millis(20), sock.recv()).await;
+            } else {
+                tokio::time::sleep(Duration::from_millis(20)).await;
+            }
+            fd_after = rig::open_fds();
+            tasks_after = rig::alive_tasks();
+        }
+        let canary = rig::canary_ok().await;
+        println!(
+            "FDCYCLES {}",
+            json!({"ty": ty, "transport": transport, "cycles": n, "fd_before": fd_before, "fd_after": fd_after,
+                   "tasks_before": tasks_before, "tasks_after": tasks_after, "canary_ok": canary})
+        );
+        let _ = tokio::time::timeout(WAIT, sock.close()).await;
+        Ok::<(), String>(())
+    });
+    match res {
+        Ok(()) => 0,
+        Err(e) => {
+            println!("FDCYCLES-ERROR {e}");
+            1
+        }
+    }
+}
+
+fn rig_cycles_case(ctx: &mut Ctx, case: &Value) {
+    use std::process::{Command, Stdio};
+    let ty = s(case, "ty").to_string();
+    let transport = s(case, "transport").to_string();
+    let n = u(case, "cycles");
+    ctx.eval(hash_str(&case.to_string()), true);
+    ctx.sample("rig_cycles", || case.clone());
+    let exe = std::env::current_exe().expect("current_exe");
+    let out = Command::new(exe)
+        .args(["child", "fdcycles", &ty, &transport, &n.to_string()])
+        .stdout(Stdio::piped())
+        .stderr(Stdio::null())
+        .output();
+    let text = match out {
+        Ok(o) => String::from_utf8_lossy(&o.stdout).into_owned(),
+        Err(e) => {
+            ctx.inconclusive(format!("C16 fd cycles: cannot run child: {e}"));
+            return;
+        }
+    };
+    let Some(line) = text.lines().find(|l| l.starts_with("FDCYCLES ")) else {
+        ctx.inconclusive(format!("C16 fd cycles {ty}/{transport}: {}", text.lines().last().unwrap_or("no output")));
+        return;
+    };
+    let v: Value = serde_json::from_str(&line["FDCYCLES ".len()..]).unwrap_or(Value::Null);
+    let (fb, fa, tb, ta) = (u(&v, "fd_before"), u(&v, "fd_after"), u(&v, "tasks_before"), u(&v, "tasks_after"));
+    ctx.add("rig_connect_disconnect_cycles", n);
+    ctx.count(&format!("rig_cycles/{transport}"));
+    ctx.max("rig_fd_growth_after_cycles", fa.saturating_sub(fb));
+    if fa > fb + 6 || ta > tb + 2 {
+        if v["canary_ok"].as_bool().unwrap_or(false) {
+            ctx.violation_with(
+                &format!("C16/rig/descriptors-or-tasks-accumulate/{ty}"),
+                format!("{n} connect/exchange/disconnect cycles over {transport}: open descriptors {fb} -> {fa}, alive tasks {tb} -> {ta} (dead connections accumulate)"),
+                case.clone(),
+            );
+        } else {
+            ctx.inconclusive(format!("C16 fd cycles {ty}/{transport}: counts high but the canary was slow"));
+        }
+    }
+}
+
 impl Prop for C16 {
     fn id(&self) -> &'static str {
         "C16"
@@ -533,6 +687,11 @@ impl Prop for C16 {
 
     fn cases(&self, tier: Tier, _seed: u64) -> Vec<Value> {
         let mut v = Vec::new();
+        for ty in ALL_TYPES {
+            for transport in ["tcp4", "ipc"] {
+                v.push(json!({"kind": "rig_cycles", "ty": ty, "transport": transport, "cycles": tier.pick(60, 600)}));
+            }
+        }
         for ty in ALL_TYPES {
             for fault in FAULTS {
                 for order in ["read-first", "write-first"] {
@@ -559,6 +718,7 @@ impl Prop for C16 {
     fn run(&self, case: &Value, ctx: &mut Ctx) {
         let ty = s(case, "ty").to_string();
         match s(case, "kind") {
+            "rig_cycles" => rig_cycles_case(ctx, case),
             "post_batch" => {
                 for cut in CUTS {
                     // a protocol error needs an item boundary: inside a frame the
@@ -636,6 +796,9 @@ impl Prop for C16 {
             ("handshake_failed_cleanly", 300),
             ("connections_replaced_by_a_reconnect", 50),
             ("sub_updates_checked_after_a_fault", 50),
+            ("rig_connect_disconnect_cycles", 1000),
+            ("rig_cycles/tcp4", 9),
+            ("rig_cycles/ipc", 9),
         ];
         for c in [
             "cut/between-messages",
